@@ -239,6 +239,18 @@ def evOf : Label → Ev
   | .k1 id => .k1 id
   | _ => .other
 
+/-- Rename the subject of a label (the harness names a detached cancel notification by its call,
+`x<n>`; the model by creation index). -/
+def Label.relabel (f : Who → Who) : Label → Label
+  | .n1 w => .n1 (f w) | .n2 w => .n2 (f w) | .w1 w => .w1 (f w) | .w2 w => .w2 (f w)
+  | .wret w o => .wret (f w) o
+  | l => l
+
+/-- The model's index of the detached cancel notification of call `n`. -/
+def fixCnotif (s : St) : Who → Who
+  | .cnotif n => .cnotif ((s.cnotifs.findIdx? (fun nf => nf.cancelFor == some n)).getD s.cnotifs.length)
+  | w => w
+
 /-! ## monitor state -/
 
 structure MReq where
